@@ -609,6 +609,19 @@ func (fr *Frame) requireExpr(st *State, kind, fname, name string, e *Expr, extra
 	g, err := fr.evalGoal(st, e, extra)
 	if err != nil {
 		r.note(fmt.Sprintf("%s: %s %q: %v", fr.fname, kind, text, err))
+		if r.dry == 0 && st.pc != "false" && (kind == "assert" || kind == "ensures" || kind == "inv-init" || kind == "inv-preserve") {
+			// the clause cannot even be stated on this tree (a variable or field it speaks about is
+			// gone or is not defined at this point any more): the obligation that was discharged on
+			// the tree the contract was written for cannot be discharged; reported like a failed proof
+			full := fname + "/" + kind + "/" + name
+			r.oblNames[full]++
+			if n := r.oblNames[full]; n > 1 {
+				full = fmt.Sprintf("%s~%d", full, n)
+			}
+			r.obls = append(r.obls, &Obligation{Name: full, Kind: kind, Func: fname, Tags: tags, Pos: r.eng.pos(pos), Text: text + " -- " + err.Error(), Pc: "true", Goal: "false",
+				Result: &SolverResult{Status: "clause-not-evaluable", Solver: "contract-evaluator", Output: err.Error()}})
+			return
+		}
 		r.evalErrors = append(r.evalErrors, fmt.Sprintf("%s: %s %q: %v", fr.fname, kind, text, err))
 		return
 	}
